@@ -1,0 +1,71 @@
+// SPDX-FileCopyrightText: 2026 The Pion community <https://pion.ly>
+// SPDX-License-Identifier: MIT
+
+//go:build verif
+
+// Contracts (comment-only) for property C07: application data travels only
+// over validated pairs and only from known peers.
+
+package ice
+
+// pairPrioOf(p): the pair priority as a function of the pair's fields (the
+// postcondition of (*CandidatePair).priority, usable under quantifiers).
+//@ spec macro pairPrioOf(p *CandidatePair) = ite(p.hasPriorityOverride, p.priorityOverride, ite(p.iceRoleControlling, pairPrio(candPrio(p.Local.payload), candPrio(p.Remote.payload)), pairPrio(candPrio(p.Remote.payload), candPrio(p.Local.payload))))
+
+//@ func (*Agent).getBestValidCandidatePair
+//@   props C07
+//@   pure
+//@   loop 1 invariant index-in-range: rangeindex + 1 <= len(a.checklist)
+//@   loop 1 invariant none-valid-so-far: best == nil ==> forall k int :: 0 <= k && k <= rangeindex ==> a.checklist[k].state != CandidatePairStateSucceeded
+//@   loop 1 invariant best-is-valid-and-listed: best != nil ==> best.state == CandidatePairStateSucceeded && exists k int :: 0 <= k && k <= rangeindex && a.checklist[k] == best
+//@   loop 1 invariant best-is-maximal: best != nil ==> forall k int :: 0 <= k && k <= rangeindex && a.checklist[k].state == CandidatePairStateSucceeded ==> pairPrioOf(a.checklist[k]) <= pairPrioOf(best)
+//@   ensures nil-only-if-no-valid-pair: result == nil ==> forall k int :: 0 <= k && k < len(a.checklist) ==> a.checklist[k].state != CandidatePairStateSucceeded
+//@   ensures nil-if-no-valid-pair: (forall k int :: 0 <= k && k < len(a.checklist) ==> a.checklist[k].state != CandidatePairStateSucceeded) ==> result == nil
+//@   ensures valid-and-listed: result != nil ==> result.state == CandidatePairStateSucceeded && exists k int :: 0 <= k && k < len(a.checklist) && a.checklist[k] == result
+//@   ensures priority-maximal: result != nil ==> forall k int :: 0 <= k && k < len(a.checklist) && a.checklist[k].state == CandidatePairStateSucceeded ==> pairPrioOf(a.checklist[k]) <= pairPrioOf(result)
+
+//@ func (*Conn).Write
+//@   props C07
+//@   requires c != nil && c.agent != nil
+//@   ghostvar viaSelected bool = false
+//@   site call getSelectedPair#1 ghost viaSelected := result != nil
+//@   site call Write#1 assert refuses-stun-payloads: !isStunMsg(elems(packet), packet.off, len(packet))
+//@   site call Write#1 assert writes-the-callers-bytes-on-the-chosen-pair: arg0 == pair && arg1 == packet && pair != nil
+//@   site call Write#1 assert selected-pair-if-any-else-best-valid: !viaSelected ==> pair.state == CandidatePairStateSucceeded
+//@   site call Add#1 assert connection-counter-counts-accepted-bytes: arg1 == n && n > 0
+//@   site call UpdatePacketSent#1 assert pair-counter-counts-accepted-bytes: arg0 == pair && arg1 == n && n > 0
+//@   ensures stun-refused: isStunMsg(elems(packet), packet.off, len(packet)) ==> result0 == 0 && err != nil
+
+//@ func (*CandidatePair).Write
+//@   props C07
+//@   site call writeTo#1 assert local-socket-to-the-pairs-remote: recv == p.Local && arg0 == b && arg1 == p.Remote
+
+//@ func (*CandidatePair).UpdatePacketSent
+//@   props C07
+//@   ensures counts-one-packet: n > 0 ==> p.packetsSent == (old(p.packetsSent) + 1) % 4294967296 && p.bytesSent == (old(p.bytesSent) + n) % 18446744073709551616
+//@   ensures ignores-nothing-sent: n <= 0 ==> p.packetsSent == old(p.packetsSent) && p.bytesSent == old(p.bytesSent)
+
+//@ func (*CandidatePair).UpdatePacketReceived
+//@   props C07
+//@   ensures counts-one-packet: n > 0 ==> p.packetsReceived == (old(p.packetsReceived) + 1) % 4294967296 && p.bytesReceived == (old(p.bytesReceived) + n) % 18446744073709551616
+//@   ensures ignores-nothing-received: n <= 0 ==> p.packetsReceived == old(p.packetsReceived) && p.bytesReceived == old(p.bytesReceived)
+
+//@ func (*candidateBase).handleInboundPacket
+//@   props C07
+//@   ghostvar known bool = false
+//@   ghostvar stunLike bool = true
+//@   site call IsMessage#1 ghost stunLike := result
+//@   site call validateSTUNTrafficCache#1 ghost known := result
+//@   site call validateNonSTUNTraffic#1 assert looked-up-for-this-candidate-and-source: arg1.payload == c && arg2 == srcAddr
+//@   site call validateNonSTUNTraffic#1 ghost known := result1
+//@   site call Write#1 assert reader-never-gets-stun: !stunLike
+//@   site call Write#1 assert only-from-known-remote-candidates: known && arg1 == buf
+//@   site call UpdatePacketReceived#1 assert counts-delivered-bytes: arg1 == n && n > 0
+
+//@ func (*Agent).validateNonSTUNTraffic
+//@   props C07
+//@   ensures valid-iff-candidate-found: result1 == (result0 != nil)
+
+//@ func (*Agent).validateNonSTUNTraffic$1
+//@   props C07
+//@   site call findRemoteCandidate#1 assert same-transport-and-source: arg1 == local.NetworkType() && arg2 == remote
